@@ -3,7 +3,7 @@
    sc3/base/utils.py, sc3/synth/ugens/inout.py), tied to the code by harness/props/C03.py. *)
 From Coq Require Import ZArith List Bool Arith.
 Import ListNotations.
-Require Import SC3.model.Mce SC3.proofs.C03_mce SC3.proofs.C03_lists SC3.proofs.C03_wrap SC3.proofs.C03_full SC3.proofs.C03_rate.
+Require Import SC3.model.Mce SC3.proofs.C03_mce SC3.proofs.C03_lists SC3.proofs.C03_wrap SC3.proofs.C03_full SC3.proofs.C03_rate SC3.proofs.C03_close.
 
 (* --- unit-generator constructors: SynthObject._multi_new ------------------------------ *)
 (* for ALL constructors new1, ALL argument vectors and states: without a non-empty list
@@ -64,15 +64,13 @@ Theorem mce_empty_list_among_longer_raises : forall new1 args st,
 Proof. exact multi_new_empty_among. Qed.
 
 (* --- arithmetic operators: utils.list_binop ------------------------------------------------ *)
-(* FULL statement wanted:  for sequences a, b (both non-empty)
-     list_binop op a b t = mk t [ list_binop op a[i mod |a|] b[i mod |b|] _ | i < max |a| |b| ]
-   as ONE equation.  Proved here in two halves that together say the same: the recursive
-   equation over the wrap-extended operands (below, all four shape cases, tuples being
-   sequences exactly as the code treats them), and wrap_extend_law: the wrap-extended
-   operands have length max |a| |b| and element i mod length.  The fusion into ONE formula is
-   list_binop_wrap_law below (kept: this equation also covers the sequence-scalar cases and
-   the behaviour for empty operands). *)
-Theorem list_binop_wrap_law_partial : forall (op2 : arg -> arg -> M arg) a b t st,
+(* list_binop for EVERY pair of shapes, as a fuel-free recursive equation over the wrap-extended
+   operands (tuples being sequences exactly as the code treats them): sequence-sequence (nested or
+   flat), sequence-scalar, scalar-sequence, scalar-scalar -- including what happens with empty
+   operands (flat branch: [], nested branch: IndexError).  The property's clause for two non-empty
+   sequences is the single formula list_binop_wrap_law below; this theorem is kept because it also
+   fixes the other three shapes and the empty cases. *)
+Theorem list_binop_shape_cases : forall (op2 : arg -> arg -> M arg) a b t st,
   list_binop op2 a b t st =
   (match is_seq a, is_seq b with
    | true, true =>
@@ -103,33 +101,32 @@ Theorem flop_law : forall lst, lst <> [] ->
   forall i, i < length (flop lst) ->
     nth_error (flop lst) i = Some (map (fun x => wrap_at (as_list x) i) lst).
 Proof. exact flop_law_lemma. Qed.
-(* madd as the law requires it (= the repaired code) is one _multi_new over receiver, mul, add,
-   so mce_law applies to it.  FULL statement wanted (channel_list_methods_law): every
-   _multichannel_perform method equals the channel list of the per-row method calls over
-   flop([self, *args]): proved below as channel_list_methods_law, for every selector. *)
-Theorem channel_list_methods_law_partial : forall B self mul add st,
+(* ChannelList.madd(mul, add) = MulAdd.new(self, mul, add): one _multi_new over (receiver, mul, add)
+   (channel_list_madd_is_expansion), hence -- channel_list_madd_law -- for a non-empty receiver the
+   channel list, as long as the longest of receiver, mul, add, whose i-th element is
+   MulAdd.new(self[i mod |self|], mul_i, add_i): a list argument contributes element i modulo its
+   length, anything else itself (recursively: muladd_new is the same expansion again), an empty
+   list among them raises ZeroDivisionError. *)
+Theorem channel_list_madd_is_expansion : forall B self mul add st,
   cl_madd B self mul add st = multi_new (muladd_new1 B) [Lst self; mul; add] st.
 Proof. exact cl_madd_is_multi_new. Qed.
+Theorem channel_list_madd_law : forall B self mul add st, self <> [] ->
+  cl_madd B self mul add st =
+  bind (loop (fun i => match pick i mul, pick i add with
+                       | Some m, Some a => muladd_new B (nth (i mod length self) self (Lst [])) m a
+                       | _, _ => raise ZeroDivisionError
+                       end) 0 (maxlen [Lst self; mul; add]))
+       (fun r => ret (Lst r)) st.
+Proof. exact cl_madd_law. Qed.
 
-(* --- output units ---------------------------------------------------------------------------- *)
-(* first version; the complete statement (places, order, exact number of silence units) is
-   out_splice_and_silence below. *)
-Theorem out_splice_and_silence_partial : forall dc out bus output st r st',
-  out_ar dc out bus output st = Ok r st' ->
-  exists chans silences outs,
-    length chans = length (as_list output) /\ existsb has_zero chans = false /\
-    Forall (is_dc dc) silences /\
-    multi_new (new1_plain out 1) (bus :: chans) (st ++ silences) = Ok r st' /\
-    st' = st ++ silences ++ outs /\ length outs = count_calls (bus :: chans) /\
-    Forall (flat_vector out) outs.
-Proof. exact out_ar_spec. Qed.
+(* --- output units: out_splice_and_silence and out_splice_and_silence_all_classes below ------- *)
 
 (* ======================= full statements (deepening round) ============================ *)
 (* list_binop, ONE formula: for two non-empty sequences (lists or tuples, as the code treats
    them) the result is the sequence, of the requested type, of
        list_binop op a[i mod |a|] b[i mod |b|]        for i = 0 .. max |a| |b| - 1
    evaluated in that order on the growing SynthDef -- recursively, the right-hand side being
-   list_binop again (on two non-sequences list_binop IS op: list_binop_wrap_law_partial, last
+   list_binop again (on two non-sequences list_binop IS op: list_binop_shape_cases, last
    case); the element type is tuple iff one of the two elements is a tuple. *)
 Theorem list_binop_wrap_law : forall (op2 : arg -> arg -> M arg) a b t st,
   is_seq a = true -> is_seq b = true -> items a <> [] -> items b <> [] ->
@@ -146,6 +143,28 @@ Theorem list_binop_length_is_max : forall (op2 : arg -> arg -> M arg) a b t st r
   list_binop op2 a b t st = Ok r st' ->
   exists rs, r = mk t rs /\ length rs = Nat.max (length (items a)) (length (items b)).
 Proof. exact list_binop_fused_length. Qed.
+
+(* ... and at the level of the ChannelList operators (self + other, self * other, self - other;
+   scalar_binop = what the operator does on two non-sequences, unit creation included):
+   two non-empty lists wrap and zip; a scalar on either side is combined with every channel *)
+Theorem channel_list_operator_law : forall B o la lb st, la <> [] -> lb <> [] ->
+  cl_binop B o (Lst la) (Lst lb) st =
+  bind (loop (fun i => match nth_error la (i mod length la), nth_error lb (i mod length lb) with
+                       | Some x, Some y => list_binop (scalar_binop B o) x y (elem_kind x y)
+                       | _, _ => raise IndexError
+                       end) 0 (Nat.max (length la) (length lb)))
+       (fun r => ret (Lst r)) st.
+Proof. exact cl_binop_law. Qed.
+Theorem channel_list_operator_scalar_law : forall B o la s st,
+  cl_binop B o (Lst la) (Scalar s) st =
+  bind (mapM (fun x => list_binop (scalar_binop B o) x (Scalar s) (kind_of x)) la)
+       (fun r => ret (Lst r)) st.
+Proof. exact cl_binop_scalar_law. Qed.
+Theorem channel_list_roperator_scalar_law : forall B o la s st,
+  cl_rbinop B o (Scalar s) (Lst la) st =
+  bind (mapM (fun y => list_binop (scalar_binop B o) (Scalar s) y (kind_of y)) la)
+       (fun r => ret (Lst r)) st.
+Proof. exact cl_rbinop_scalar_law. Qed.
 
 (* _multichannel_perform, for EVERY selector (leaf = the element's own method, arbitrary) and
    every non-empty receiver: the result is the channel list, as long as the longest of receiver
@@ -224,6 +243,34 @@ Theorem out_splice_and_silence : forall dc out bus output st r st',
     st' = st ++ repeat (dc_unit dc) n ++ outs /\
     length outs = count_calls (bus :: chans) /\ Forall (flat_vector out) outs.
 Proof. exact out_ar_full. Qed.
+(* ALL output-unit constructors.  Out / ReplaceOut / OffsetOut (.ar, .kr), XOut (.ar, .kr) and
+   LocalOut (.ar, .kr) differ only in the arguments that precede the channel array ([fixed]:
+   bus | bus, xfade | nothing).  Audio rate: the complete statement above with (fixed ++ channels)
+   in the place of (bus :: channels).  Control rate: the channel array is spliced channel by
+   channel -- out_units_splice_kr: with scalar fixed arguments and a flat channel array there is
+   exactly ONE unit, whose inputs are the fixed arguments followed by every channel, in order
+   (never one unit per channel); in general the units are those of the expansion of
+   (fixed ++ channels), count_calls many. *)
+Theorem out_splice_and_silence_all_classes : forall dc out fixed output st r st',
+  out_ar_gen dc out fixed output st = Ok r st' ->
+  let n := nlists (Lst (as_list output)) in
+  exists chans outs,
+    list_rel (fun uid => length st <= uid < length st + n) (as_list output) chans /\
+    existsb has_zero chans = false /\
+    multi_new (new1_plain out 1) (fixed ++ chans) (st ++ repeat (dc_unit dc) n) = Ok r st' /\
+    st' = st ++ repeat (dc_unit dc) n ++ outs /\
+    length outs = count_calls (fixed ++ chans) /\ Forall (flat_vector out) outs.
+Proof. exact out_ar_gen_full. Qed.
+Theorem out_units_splice_kr : forall out fixed output st,
+  Forall (fun a => is_lst a = false) fixed -> Forall (fun a => is_lst a = false) (as_list output) ->
+  out_kr_gen out fixed output st =
+  Ok (Scalar (U (length st) 0)) (st ++ [mkUnit out (fixed ++ as_list output)]).
+Proof. exact out_kr_gen_flat. Qed.
+Theorem out_units_count_kr : forall out fixed output st r st',
+  out_kr_gen out fixed output st = Ok r st' ->
+  exists outs, st' = st ++ outs /\ length outs = count_calls (fixed ++ as_list output) /\
+               Forall (flat_vector out) outs.
+Proof. exact out_kr_gen_units. Qed.
 (* the silence pass itself never raises and is this pure function of the next unit id *)
 Theorem replace_zeroes_exact : forall dc a st,
   rz dc a st = Ok (fst (rzp (length st) a)) (st ++ repeat (dc_unit dc) (nlists a))
@@ -300,13 +347,33 @@ Example falsy_example :
   observe (cl_madd BB [u 0; u 1] (Lst [k 0; k 1; k (-1)]) (Lst [k 5; k 0; k 0])) pre =
     ORes (Lst [k 5; u 1; u 2]) (pre ++ [mkUnit (ar 6) [u 0]]).
 Proof. vm_compute. reflexivity. Qed.
+(* XOut.kr(0, 5, [u0, u1]): ONE unit with both channels; handing the array over as one list
+   argument (a seeded change) would give two one-channel units *)
+Example xout_kr_example :
+  let pre := [mkUnit (kr 1) [k 100; k 0]; mkUnit (kr 1) [k 101; k 0]] in
+  observe (out_kr_gen (kr 8) [k 0; k 5] (Lst [u 0; u 1])) pre =
+    ORes (u 2) (pre ++ [mkUnit (kr 8) [k 0; k 5; u 0; u 1]]) /\
+  observe (multi_new (new1_plain (kr 8) 1) [k 0; k 5; Lst [u 0; u 1]]) pre =
+    ORes (Lst [u 2; u 3]) (pre ++ [mkUnit (kr 8) [k 0; k 5; u 0]; mkUnit (kr 8) [k 0; k 5; u 1]]).
+Proof. vm_compute. split; reflexivity. Qed.
+(* channel_list_madd_law's hypotheses on a non-trivial state: receiver of two units, mul list of
+   three, add scalar: three channels, receiver wraps *)
+Example madd_law_example :
+  let pre := [mkUnit (ar 1) [k 100; k 0]; mkUnit (kr 1) [k 101; k 0]] in
+  [u 0; u 1] <> [] /\ maxlen [Lst [u 0; u 1]; Lst [k 2; k 3; k 4]; k 5] = 3 /\
+  observe (cl_madd BB [u 0; u 1] (Lst [k 2; k 3; k 4]) (k 5)) pre =
+    ORes (Lst [u 2; u 3; u 4])
+         (pre ++ [mkUnit (ar 7) [u 0; k 2; k 5]; mkUnit (kr 7) [u 1; k 3; k 5]; mkUnit (ar 7) [u 0; k 4; k 5]]).
+Proof. split; [discriminate|]. vm_compute. split; reflexivity. Qed.
 Example out_example_count : nlists (Lst [Lst [u 0; k 0]; Lst [k 0; u 1; k 7]]) = 3.
 Proof. reflexivity. Qed.
 
 Print Assumptions mce_law.
 Print Assumptions mce_one_unit_per_combination.
-Print Assumptions list_binop_wrap_law_partial.
-Print Assumptions out_splice_and_silence_partial.
+Print Assumptions list_binop_shape_cases.
+Print Assumptions channel_list_madd_law.
+Print Assumptions channel_list_operator_law.
+Print Assumptions out_splice_and_silence_all_classes.
 Print Assumptions list_binop_wrap_law.
 Print Assumptions channel_list_methods_law.
 Print Assumptions out_splice_and_silence.
